@@ -41,12 +41,45 @@ static void *__va_arg_fp(__va_elem *ap, int sz, int align) {
   return r;
 }
 
+// A struct or union that is passed in registers. klass is 16 plus
+// bit 0 / bit 1: the first / second eightbyte is of class SSE, and
+// bit 2: there is a second eightbyte. If the registers it needs were
+// not all available, the caller has passed it in memory. Otherwise its
+// eightbytes are gathered from the register save area into tmp.
+static void *__va_arg_agg(__va_elem *ap, int klass, int sz, int align, void *tmp) {
+  int two = (klass >> 2) & 1;
+  int fp0 = klass & 1;
+  int fp1 = two & (klass >> 1);
+  int num_gp = !fp0 + (two & !fp1);
+  int num_fp = fp0 + fp1;
+
+  if (ap->gp_offset + 8 * num_gp > 48 || ap->fp_offset + 16 * num_fp > 176)
+    return __va_arg_mem(ap, sz, align);
+
+  char *dst = tmp;
+  for (int i = 0; i <= two; i++) {
+    char *src;
+    if (i == 0 ? fp0 : fp1) {
+      src = ap->reg_save_area + ap->fp_offset;
+      ap->fp_offset += 16;
+    } else {
+      src = ap->reg_save_area + ap->gp_offset;
+      ap->gp_offset += 8;
+    }
+    for (int j = 0; j < 8 && 8 * i + j < sz; j++)
+      dst[8 * i + j] = src[j];
+  }
+  return tmp;
+}
+
 #define va_arg(ap, ty)                                                  \
   ({                                                                    \
     int klass = __builtin_reg_class(ty);                                \
+    typeof(ty) __va_tmp;                                                \
     *(ty *)(klass == 0 ? __va_arg_gp(ap, sizeof(ty), _Alignof(ty)) :    \
             klass == 1 ? __va_arg_fp(ap, sizeof(ty), _Alignof(ty)) :    \
-            __va_arg_mem(ap, sizeof(ty), _Alignof(ty)));                \
+            klass == 2 ? __va_arg_mem(ap, sizeof(ty), _Alignof(ty)) :   \
+            __va_arg_agg(ap, klass, sizeof(ty), _Alignof(ty), &__va_tmp)); \
   })
 
 #define va_copy(dest, src) ((dest)[0] = (src)[0])
